@@ -248,9 +248,13 @@ def replay_main(path):
 # ----------------------------------------------------------------------------
 # driver side (never imports physt)
 # ----------------------------------------------------------------------------
+TIER_ENV = {"tier": "quick"}
+
+
 def child_env(extra=None, hashseed="0"):
     e = dict(os.environ)
     e["PYTHONHASHSEED"] = hashseed
+    e["HISTSIM_TIER"] = TIER_ENV["tier"]
     e.pop("PHYST_FREE_ARITHMETICS", None)
     for k, v in (extra or {}).items():
         if v is None:
@@ -289,6 +293,7 @@ def check_main(a):
     tier = a.tier or os.environ.get("VERIF_TIER") or "quick"
     if tier not in ("quick", "thorough"):
         tier = "quick"
+    TIER_ENV["tier"] = tier
     seed = a.seed if a.seed is not None else int(os.environ.get("VERIF_SEED", "0") or 0)
     meta = module_meta(prop)
     runs_total = a.runs or meta["RUNS"][tier]
